@@ -165,7 +165,8 @@ class ExperimentalValueArray(np.ndarray):
             super().__setitem__(
                 key, dut.wrap_in_measurement(value, unit=self.unit, name=self.name))
             if self.name:
-                self[key].name = "{}_{}".format(self.name, key)
+                index = key + len(self) if isinstance(key, int) and key < 0 else key
+                self[key].name = "{}_{}".format(self.name, index)
 
     def __pow__(self, power):
         if isinstance(power, ARRAY_TYPES):
